@@ -47,8 +47,11 @@ pub static mut BUDGET: u8 = 0;
 pub static mut FIRED: u8 = 0;
 pub static mut POINTS: u32 = 0;
 
+/// per logical thread: how many locks of each class it holds, and the same as a bitmask (bit c = class c held)
 pub static mut HELD: [[u8; NCLASS]; NTHREAD] = [[0; NCLASS]; NTHREAD];
-pub static mut EDGE: [[bool; NCLASS]; NCLASS] = [[false; NCLASS]; NCLASS];
+pub static mut HELD_MASK: [u32; NTHREAD] = [0; NTHREAD];
+/// EDGE_MASK[b] bit a: some logical thread acquired (or blocked on) class b while holding class a
+pub static mut EDGE_MASK: [u32; NCLASS] = [0; NCLASS];
 pub static mut MONITOR: bool = false;
 /// a blocking queue operation was reached while the current logical thread held a lock
 pub static mut BLOCKED_UNDER_LOCK: bool = false;
@@ -144,12 +147,10 @@ fn note_acquire(class: u8) {
         LOCK_ACQS += 1;
         if MONITOR && class != CL_NONE {
             let me = CUR;
-            let mut a = 1;
-            while a < NCLASS {
-                if HELD[me][a] > 0 { EDGE[a][class as usize] = true; }
-                a += 1;
-            }
-            HELD[me][class as usize] += 1;
+            let c = class as usize;
+            EDGE_MASK[c] |= HELD_MASK[me] & !(1u32 << c);
+            HELD[me][c] += 1;
+            HELD_MASK[me] |= 1u32 << c;
         }
     }
 }
@@ -158,7 +159,9 @@ fn note_release(class: u8) {
     unsafe {
         if MONITOR && class != CL_NONE {
             let me = CUR;
-            if HELD[me][class as usize] > 0 { HELD[me][class as usize] -= 1; }
+            let c = class as usize;
+            if HELD[me][c] > 0 { HELD[me][c] -= 1; }
+            if HELD[me][c] == 0 { HELD_MASK[me] &= !(1u32 << c); }
         }
     }
 }
@@ -203,20 +206,138 @@ pub fn note_blocking(class: u8) {
         BLOCKING_OPS += 1;
         if MONITOR {
             let me = CUR;
-            let mut a = 1;
-            while a < NCLASS {
-                if HELD[me][a] > 0 { BLOCKED_UNDER_LOCK = true; EDGE[a][class as usize] = true; }
-                a += 1;
-            }
+            if HELD_MASK[me] != 0 { BLOCKED_UNDER_LOCK = true; EDGE_MASK[class as usize] |= HELD_MASK[me]; }
         }
     }
 }
-pub fn any_lock_held_by_current() -> bool {
-    unsafe {
-        let me = CUR;
-        let mut a = 1;
-        let mut r = false;
-        while a < NCLASS { if HELD[me][a] > 0 { r = true; } a += 1; }
-        r
-    }
+/// a blocking send is issued (whether or not it has to wait this time): whatever the thread holds is ordered
+/// before the queue
+pub fn note_may_block(class: u8) {
+    unsafe { if MONITOR { let me = CUR; EDGE_MASK[class as usize] |= HELD_MASK[me] & !(1u32 << class as usize); } }
 }
+/// the consumer thread of a queue carries the queue's progress obligation: every lock it takes is ordered
+/// after the queue (a producer blocked on the full queue waits for the consumer)
+pub fn consumer_holds(tid: usize, class: u8, on: bool) {
+    unsafe { if on { HELD_MASK[tid] |= 1u32 << class as usize; HELD[tid][class as usize] += 1; } else { HELD_MASK[tid] &= !(1u32 << class as usize); HELD[tid][class as usize] = 0; } }
+}
+pub fn any_lock_held_by_current() -> bool { unsafe { HELD_MASK[CUR] != 0 } }
+
+/// one reachability query per ordered pair of lock / queue classes: "class b was acquired (or blocked on) while
+/// class a was held".  The driver collects the satisfied ones over all harnesses and checks that the union
+/// graph has no cycle (C18).  Pairs never observed are constant-false and cost nothing.
+#[cfg(kani)]
+pub fn edge_covers() {
+    kani::cover!(unsafe { EDGE_MASK[2] } & (1u32 << 1) != 0, "EDGE 1->2");
+    kani::cover!(unsafe { EDGE_MASK[3] } & (1u32 << 1) != 0, "EDGE 1->3");
+    kani::cover!(unsafe { EDGE_MASK[4] } & (1u32 << 1) != 0, "EDGE 1->4");
+    kani::cover!(unsafe { EDGE_MASK[5] } & (1u32 << 1) != 0, "EDGE 1->5");
+    kani::cover!(unsafe { EDGE_MASK[6] } & (1u32 << 1) != 0, "EDGE 1->6");
+    kani::cover!(unsafe { EDGE_MASK[7] } & (1u32 << 1) != 0, "EDGE 1->7");
+    kani::cover!(unsafe { EDGE_MASK[8] } & (1u32 << 1) != 0, "EDGE 1->8");
+    kani::cover!(unsafe { EDGE_MASK[9] } & (1u32 << 1) != 0, "EDGE 1->9");
+    kani::cover!(unsafe { EDGE_MASK[10] } & (1u32 << 1) != 0, "EDGE 1->10");
+    kani::cover!(unsafe { EDGE_MASK[11] } & (1u32 << 1) != 0, "EDGE 1->11");
+    kani::cover!(unsafe { EDGE_MASK[1] } & (1u32 << 2) != 0, "EDGE 2->1");
+    kani::cover!(unsafe { EDGE_MASK[3] } & (1u32 << 2) != 0, "EDGE 2->3");
+    kani::cover!(unsafe { EDGE_MASK[4] } & (1u32 << 2) != 0, "EDGE 2->4");
+    kani::cover!(unsafe { EDGE_MASK[5] } & (1u32 << 2) != 0, "EDGE 2->5");
+    kani::cover!(unsafe { EDGE_MASK[6] } & (1u32 << 2) != 0, "EDGE 2->6");
+    kani::cover!(unsafe { EDGE_MASK[7] } & (1u32 << 2) != 0, "EDGE 2->7");
+    kani::cover!(unsafe { EDGE_MASK[8] } & (1u32 << 2) != 0, "EDGE 2->8");
+    kani::cover!(unsafe { EDGE_MASK[9] } & (1u32 << 2) != 0, "EDGE 2->9");
+    kani::cover!(unsafe { EDGE_MASK[10] } & (1u32 << 2) != 0, "EDGE 2->10");
+    kani::cover!(unsafe { EDGE_MASK[11] } & (1u32 << 2) != 0, "EDGE 2->11");
+    kani::cover!(unsafe { EDGE_MASK[1] } & (1u32 << 3) != 0, "EDGE 3->1");
+    kani::cover!(unsafe { EDGE_MASK[2] } & (1u32 << 3) != 0, "EDGE 3->2");
+    kani::cover!(unsafe { EDGE_MASK[4] } & (1u32 << 3) != 0, "EDGE 3->4");
+    kani::cover!(unsafe { EDGE_MASK[5] } & (1u32 << 3) != 0, "EDGE 3->5");
+    kani::cover!(unsafe { EDGE_MASK[6] } & (1u32 << 3) != 0, "EDGE 3->6");
+    kani::cover!(unsafe { EDGE_MASK[7] } & (1u32 << 3) != 0, "EDGE 3->7");
+    kani::cover!(unsafe { EDGE_MASK[8] } & (1u32 << 3) != 0, "EDGE 3->8");
+    kani::cover!(unsafe { EDGE_MASK[9] } & (1u32 << 3) != 0, "EDGE 3->9");
+    kani::cover!(unsafe { EDGE_MASK[10] } & (1u32 << 3) != 0, "EDGE 3->10");
+    kani::cover!(unsafe { EDGE_MASK[11] } & (1u32 << 3) != 0, "EDGE 3->11");
+    kani::cover!(unsafe { EDGE_MASK[1] } & (1u32 << 4) != 0, "EDGE 4->1");
+    kani::cover!(unsafe { EDGE_MASK[2] } & (1u32 << 4) != 0, "EDGE 4->2");
+    kani::cover!(unsafe { EDGE_MASK[3] } & (1u32 << 4) != 0, "EDGE 4->3");
+    kani::cover!(unsafe { EDGE_MASK[5] } & (1u32 << 4) != 0, "EDGE 4->5");
+    kani::cover!(unsafe { EDGE_MASK[6] } & (1u32 << 4) != 0, "EDGE 4->6");
+    kani::cover!(unsafe { EDGE_MASK[7] } & (1u32 << 4) != 0, "EDGE 4->7");
+    kani::cover!(unsafe { EDGE_MASK[8] } & (1u32 << 4) != 0, "EDGE 4->8");
+    kani::cover!(unsafe { EDGE_MASK[9] } & (1u32 << 4) != 0, "EDGE 4->9");
+    kani::cover!(unsafe { EDGE_MASK[10] } & (1u32 << 4) != 0, "EDGE 4->10");
+    kani::cover!(unsafe { EDGE_MASK[11] } & (1u32 << 4) != 0, "EDGE 4->11");
+    kani::cover!(unsafe { EDGE_MASK[1] } & (1u32 << 5) != 0, "EDGE 5->1");
+    kani::cover!(unsafe { EDGE_MASK[2] } & (1u32 << 5) != 0, "EDGE 5->2");
+    kani::cover!(unsafe { EDGE_MASK[3] } & (1u32 << 5) != 0, "EDGE 5->3");
+    kani::cover!(unsafe { EDGE_MASK[4] } & (1u32 << 5) != 0, "EDGE 5->4");
+    kani::cover!(unsafe { EDGE_MASK[6] } & (1u32 << 5) != 0, "EDGE 5->6");
+    kani::cover!(unsafe { EDGE_MASK[7] } & (1u32 << 5) != 0, "EDGE 5->7");
+    kani::cover!(unsafe { EDGE_MASK[8] } & (1u32 << 5) != 0, "EDGE 5->8");
+    kani::cover!(unsafe { EDGE_MASK[9] } & (1u32 << 5) != 0, "EDGE 5->9");
+    kani::cover!(unsafe { EDGE_MASK[10] } & (1u32 << 5) != 0, "EDGE 5->10");
+    kani::cover!(unsafe { EDGE_MASK[11] } & (1u32 << 5) != 0, "EDGE 5->11");
+    kani::cover!(unsafe { EDGE_MASK[1] } & (1u32 << 6) != 0, "EDGE 6->1");
+    kani::cover!(unsafe { EDGE_MASK[2] } & (1u32 << 6) != 0, "EDGE 6->2");
+    kani::cover!(unsafe { EDGE_MASK[3] } & (1u32 << 6) != 0, "EDGE 6->3");
+    kani::cover!(unsafe { EDGE_MASK[4] } & (1u32 << 6) != 0, "EDGE 6->4");
+    kani::cover!(unsafe { EDGE_MASK[5] } & (1u32 << 6) != 0, "EDGE 6->5");
+    kani::cover!(unsafe { EDGE_MASK[7] } & (1u32 << 6) != 0, "EDGE 6->7");
+    kani::cover!(unsafe { EDGE_MASK[8] } & (1u32 << 6) != 0, "EDGE 6->8");
+    kani::cover!(unsafe { EDGE_MASK[9] } & (1u32 << 6) != 0, "EDGE 6->9");
+    kani::cover!(unsafe { EDGE_MASK[10] } & (1u32 << 6) != 0, "EDGE 6->10");
+    kani::cover!(unsafe { EDGE_MASK[11] } & (1u32 << 6) != 0, "EDGE 6->11");
+    kani::cover!(unsafe { EDGE_MASK[1] } & (1u32 << 7) != 0, "EDGE 7->1");
+    kani::cover!(unsafe { EDGE_MASK[2] } & (1u32 << 7) != 0, "EDGE 7->2");
+    kani::cover!(unsafe { EDGE_MASK[3] } & (1u32 << 7) != 0, "EDGE 7->3");
+    kani::cover!(unsafe { EDGE_MASK[4] } & (1u32 << 7) != 0, "EDGE 7->4");
+    kani::cover!(unsafe { EDGE_MASK[5] } & (1u32 << 7) != 0, "EDGE 7->5");
+    kani::cover!(unsafe { EDGE_MASK[6] } & (1u32 << 7) != 0, "EDGE 7->6");
+    kani::cover!(unsafe { EDGE_MASK[8] } & (1u32 << 7) != 0, "EDGE 7->8");
+    kani::cover!(unsafe { EDGE_MASK[9] } & (1u32 << 7) != 0, "EDGE 7->9");
+    kani::cover!(unsafe { EDGE_MASK[10] } & (1u32 << 7) != 0, "EDGE 7->10");
+    kani::cover!(unsafe { EDGE_MASK[11] } & (1u32 << 7) != 0, "EDGE 7->11");
+    kani::cover!(unsafe { EDGE_MASK[1] } & (1u32 << 8) != 0, "EDGE 8->1");
+    kani::cover!(unsafe { EDGE_MASK[2] } & (1u32 << 8) != 0, "EDGE 8->2");
+    kani::cover!(unsafe { EDGE_MASK[3] } & (1u32 << 8) != 0, "EDGE 8->3");
+    kani::cover!(unsafe { EDGE_MASK[4] } & (1u32 << 8) != 0, "EDGE 8->4");
+    kani::cover!(unsafe { EDGE_MASK[5] } & (1u32 << 8) != 0, "EDGE 8->5");
+    kani::cover!(unsafe { EDGE_MASK[6] } & (1u32 << 8) != 0, "EDGE 8->6");
+    kani::cover!(unsafe { EDGE_MASK[7] } & (1u32 << 8) != 0, "EDGE 8->7");
+    kani::cover!(unsafe { EDGE_MASK[9] } & (1u32 << 8) != 0, "EDGE 8->9");
+    kani::cover!(unsafe { EDGE_MASK[10] } & (1u32 << 8) != 0, "EDGE 8->10");
+    kani::cover!(unsafe { EDGE_MASK[11] } & (1u32 << 8) != 0, "EDGE 8->11");
+    kani::cover!(unsafe { EDGE_MASK[1] } & (1u32 << 9) != 0, "EDGE 9->1");
+    kani::cover!(unsafe { EDGE_MASK[2] } & (1u32 << 9) != 0, "EDGE 9->2");
+    kani::cover!(unsafe { EDGE_MASK[3] } & (1u32 << 9) != 0, "EDGE 9->3");
+    kani::cover!(unsafe { EDGE_MASK[4] } & (1u32 << 9) != 0, "EDGE 9->4");
+    kani::cover!(unsafe { EDGE_MASK[5] } & (1u32 << 9) != 0, "EDGE 9->5");
+    kani::cover!(unsafe { EDGE_MASK[6] } & (1u32 << 9) != 0, "EDGE 9->6");
+    kani::cover!(unsafe { EDGE_MASK[7] } & (1u32 << 9) != 0, "EDGE 9->7");
+    kani::cover!(unsafe { EDGE_MASK[8] } & (1u32 << 9) != 0, "EDGE 9->8");
+    kani::cover!(unsafe { EDGE_MASK[10] } & (1u32 << 9) != 0, "EDGE 9->10");
+    kani::cover!(unsafe { EDGE_MASK[11] } & (1u32 << 9) != 0, "EDGE 9->11");
+    kani::cover!(unsafe { EDGE_MASK[1] } & (1u32 << 10) != 0, "EDGE 10->1");
+    kani::cover!(unsafe { EDGE_MASK[2] } & (1u32 << 10) != 0, "EDGE 10->2");
+    kani::cover!(unsafe { EDGE_MASK[3] } & (1u32 << 10) != 0, "EDGE 10->3");
+    kani::cover!(unsafe { EDGE_MASK[4] } & (1u32 << 10) != 0, "EDGE 10->4");
+    kani::cover!(unsafe { EDGE_MASK[5] } & (1u32 << 10) != 0, "EDGE 10->5");
+    kani::cover!(unsafe { EDGE_MASK[6] } & (1u32 << 10) != 0, "EDGE 10->6");
+    kani::cover!(unsafe { EDGE_MASK[7] } & (1u32 << 10) != 0, "EDGE 10->7");
+    kani::cover!(unsafe { EDGE_MASK[8] } & (1u32 << 10) != 0, "EDGE 10->8");
+    kani::cover!(unsafe { EDGE_MASK[9] } & (1u32 << 10) != 0, "EDGE 10->9");
+    kani::cover!(unsafe { EDGE_MASK[11] } & (1u32 << 10) != 0, "EDGE 10->11");
+    kani::cover!(unsafe { EDGE_MASK[1] } & (1u32 << 11) != 0, "EDGE 11->1");
+    kani::cover!(unsafe { EDGE_MASK[2] } & (1u32 << 11) != 0, "EDGE 11->2");
+    kani::cover!(unsafe { EDGE_MASK[3] } & (1u32 << 11) != 0, "EDGE 11->3");
+    kani::cover!(unsafe { EDGE_MASK[4] } & (1u32 << 11) != 0, "EDGE 11->4");
+    kani::cover!(unsafe { EDGE_MASK[5] } & (1u32 << 11) != 0, "EDGE 11->5");
+    kani::cover!(unsafe { EDGE_MASK[6] } & (1u32 << 11) != 0, "EDGE 11->6");
+    kani::cover!(unsafe { EDGE_MASK[7] } & (1u32 << 11) != 0, "EDGE 11->7");
+    kani::cover!(unsafe { EDGE_MASK[8] } & (1u32 << 11) != 0, "EDGE 11->8");
+    kani::cover!(unsafe { EDGE_MASK[9] } & (1u32 << 11) != 0, "EDGE 11->9");
+    kani::cover!(unsafe { EDGE_MASK[10] } & (1u32 << 11) != 0, "EDGE 11->10");
+    kani::cover!(unsafe { BLOCKED_UNDER_LOCK }, "EDGE blocked-under-lock");
+}
+#[cfg(not(kani))]
+pub fn edge_covers() {}
